@@ -39,7 +39,9 @@ def scalable_names():
             t = e["make"]()
         except Exception:
             continue
-        if type(t).supports_scale_strength():
+        # the domain is decided here, not by asking the library: a class takes part iff it (or a base) overrides the scaling hook
+        from kappadata.transforms.base.kd_transform import KDTransform
+        if isinstance(t, KDTransform) and type(t)._scale_strength is not KDTransform._scale_strength:
             out.append(n)
     return out
 
@@ -67,6 +69,10 @@ def make_schedule(name):
     if name == "custom":
         return ks.CustomSchedule([0.0, 1.0, 0.25, 0.5, 0.75, 0.1, 0.9, 0.33, 0.66, 1.0, 0.0, 0.5])
     raise ValueError(name)
+
+
+def L_is_pipeline(spec):
+    return spec["t"] == "leaf" and C.leaves()[spec["name"]].get("pipeline", False)
 
 
 def numeric_params(ctx):
@@ -335,6 +341,28 @@ class Spec(core.PropSpec):
 
             out.violate(cls, culprit(cls, probe), f"tree={C.sig(spec)} factors={factors}: object differs from a fresh replica "
                                                   f"{'never scaled' if last == 1.0 else 'scaled only by ' + str(last)}: {d}")
+        # ---- "also through compositions": scaling the composition = scaling every member directly ------------------------
+        if spec["t"] != "leaf" or L_is_pipeline(spec):
+            import kappadata.transforms as kdt
+
+            def scale_members(t, f):
+                if isinstance(t, kdt.KDComposeTransform):
+                    for c in t.transforms:
+                        scale_members(c, f)
+                elif isinstance(t, kdt.KDTransform):
+                    t.scale_strength(f)
+
+            try:
+                with pR.on_cpu():
+                    R2 = C.build(spec)
+                    scale_members(R2, last)
+                ref2 = run_calls(R2, pR)
+                d2 = deep_diff([g[0] for g in ref[:]], [r[0] for r in ref2], "out")
+            except Exception as e:
+                d2 = None
+            if d2:
+                out.violate("C15:composition-does-not-pass-the-factor-on", site_default,
+                            f"tree={C.sig(spec)}: scaling the composition by {last} differs from scaling each member by {last}: {d2}")
         # ---- zero strength and monotonicity (fresh replicas, same seed) ---------------------------------------------
         try:
             z = run_calls(replica(0.0), pR)
@@ -443,7 +471,8 @@ class Spec(core.PropSpec):
                 top = kdt.KDComposeTransform([kdt.KDComposeTransform([st])])
             elif nest == "compose2":
                 # two scheduled transforms in one pipeline, each with its own counter (the second around an identity-like op)
-                st2 = kdt.KDScheduledTransform(kdt.KDRandomHorizontalFlip(p=0.0), schedule=make_schedule(plan["schedule"]))
+                other = SCHEDULES[(SCHEDULES.index(plan["schedule"]) + 1) % len(SCHEDULES)]
+                st2 = kdt.KDScheduledTransform(kdt.KDRandomHorizontalFlip(p=0.0), schedule=make_schedule(other))
                 top = kdt.KDComposeTransform([st, st2])
         except Exception as e:
             out.rejected = True
@@ -496,6 +525,10 @@ class Spec(core.PropSpec):
         if order != sorted(order):
             out.count("fault:out_of_order_completion")
         ref_sched = st.schedule
+        if plan.get("nest") == "compose2":
+            ref_sched_reported = st2.schedule  # both write the same context key: the pipeline's last scheduled transform wins
+        else:
+            ref_sched_reported = st.schedule
         key = st.ctx_key
         for b, samples in enumerate(delivered):
             want = ref_sched.get_value(b, NB)
@@ -507,9 +540,10 @@ class Spec(core.PropSpec):
                 got.append(float(ctx[key]))
             else:
                 out.ev("batch", b, got)
-                if any(abs(g - want) > 1e-12 for g in got):
+                want_reported = ref_sched_reported.get_value(b, NB)
+                if any(abs(g - want_reported) > 1e-12 for g in got):
                     out.violate("C15:wrong-strength-for-batch", f"K={'0' if K == 0 else '>=1'},hook={plan['hook']}",
-                                f"global batch {b} of {NB} (K={K}, B={B}): reported strengths {got}, schedule value {want}")
+                                f"global batch {b} of {NB} (K={K}, B={B}): reported strengths {got}, schedule value {want_reported}")
                     break
                 # the sample must be what a replica scaled with exactly that value produces
                 for (idx, x), ctx in samples:
